@@ -123,6 +123,15 @@ func scenariosFor(prop string) []scn {
 		both(flowParams{Sources: 1, Records: 2, Batch: 1, Dests: 1, AckMenu: []string{"ok", "err"}, ReadMenu: []string{"ok", "err"}, Ctl: []string{"stop", "wait", "start", "stopwait"}, Retries: 1}, 2, 3)
 		both(flowParams{Sources: 1, Records: 2, Batch: 1, Dests: 1, AckMenu: []string{"ok", "err"}, Ctl: []string{"stopwait", "start", "stopwait"}, Retries: 2}, 2, 3)
 		both(flowParams{Sources: 1, Records: 1, Batch: 1, Dests: 2, AckMenu: onlyOK, GateDestOpen: true, Ctl: []string{"stop", "start", "stopwait"}, Retries: 1}, 2, 3)
+	case "C13":
+		v1 := func(p flowParams, q, t int) { p.Engine = "v1"; out = append(out, scn{p, q, t}) }
+		pp := []procParam{{ID: "pp"}}
+		v1(flowParams{Sources: 1, Records: 3, Batch: 1, Dests: 1, AckMenu: onlyOK, Procs: pp, Reconf: []string{"A"}, ProcOpenMenu: []string{"ok", "err"}}, 2, 4)
+		v1(flowParams{Sources: 1, Records: 3, Batch: 1, Dests: 2, AckMenu: onlyOK, Procs: pp, Reconf: []string{"A"}, ProcOpenMenu: []string{"ok"}, Stop: "stopwait"}, 2, 3)
+		v1(flowParams{Sources: 1, Records: 3, Batch: 1, Dests: 1, AckMenu: onlyOK, Procs: pp, Reconf: []string{"A", "B"}, ProcOpenMenu: []string{"ok", "err"}}, 2, 3)
+		v1(flowParams{Sources: 1, Records: 2, Batch: 1, Dests: 1, AckMenu: onlyOK, Procs: pp, Reconf: []string{"A", "B", "cancelA"}, ProcOpenMenu: []string{"ok"}}, 3, 4)
+		v1(flowParams{Sources: 1, Records: 2, Batch: 1, Dests: 1, AckMenu: onlyOK, Procs: pp, Reconf: []string{"A", "cancelA"}, ProcOpenMenu: []string{"ok", "err"}}, 2, 4)
+		v1(flowParams{Sources: 1, Records: 3, Batch: 1, Dests: 1, AckMenu: okNack, Procs: []procParam{{ID: "pp", Gate: true}}, Reconf: []string{"A"}, ProcOpenMenu: []string{"ok"}}, 2, 3)
 	case "C06":
 		both(flowParams{Sources: 1, Records: 3, Batch: 1, Dests: 1, AckMenu: onlyOK, Stop: "stopwait"}, 2, 4)
 		both(flowParams{Sources: 1, Records: 2, Batch: 1, Dests: 2, AckMenu: onlyOK, Stop: "stopwait"}, 2, 3)
